@@ -195,3 +195,14 @@ Theorem C12_heap_nan_shortcut_observed :
     (Some (reify (h_str exn_heap) (unroll exn_F 1 exn_r2))) false true = Some false.
 Proof. exact nan_shortcut_differs. Qed.
 Print Assumptions C12_heap_nan_shortcut_observed.
+
+(** the hypothesis "the unrolling is complete" (no cycle through a reference) cannot be dropped either:
+    cJSON_Compare has no recursion limit; on two arrays whose reference element points back into the array
+    itself the model exhausts any recursion fuel ([NoFuel]); the C function overflows the stack (ASan probe) *)
+Theorem C12_heap_cycle_unbounded_observed :
+  WF exy_heap exy_F /\ refs_in exy_F /\ strings_readable exy_heap exy_F /\
+  exy_arr 1 2 3 ∈ nodes exy_F /\ exy_arr 10 11 12 ∈ nodes exy_F /\
+  ~ complete (unroll exy_F 5 (exy_arr 1 2 3)) /\
+  out_err (cJSON_Compare (Some 1%positive) (Some 10%positive) true exy_heap) = Some NoFuel.
+Proof. exact cycle_unbounded_recursion. Qed.
+Print Assumptions C12_heap_cycle_unbounded_observed.
